@@ -266,7 +266,12 @@ func parseModel(resp string, vars map[string]Sort) map[string]uint64 {
 func (s *Solver) Check(extra *Term, wantModel bool) (Verdict, map[string]uint64) {
 	start := time.Now()
 	s.Stats.Queries++
-	defer func() { s.Stats.Wall += time.Since(start) }()
+	defer func() {
+		s.Stats.Wall += time.Since(start)
+		if s.Log != nil && time.Since(start) > time.Second {
+			fmt.Fprintf(s.Log, "slow query: %.1fs\n", time.Since(start).Seconds())
+		}
+	}()
 
 	var ref string
 	if extra != nil {
@@ -280,7 +285,7 @@ func (s *Solver) Check(extra *Term, wantModel bool) (Verdict, map[string]uint64)
 	}
 	q.WriteString("(check-sat)\n")
 	s.p.send(q.String())
-	resp, err := s.p.readResp()
+	resp, err := s.readWithDeadline(time.Duration(s.TimeoutMs+400) * time.Millisecond)
 	v := Unknown
 	r := strings.TrimSpace(resp)
 	if err == nil && !strings.Contains(resp, "(error") {
@@ -290,7 +295,7 @@ func (s *Solver) Check(extra *Term, wantModel bool) (Verdict, map[string]uint64)
 		case "unsat":
 			v = Unsat
 		}
-	} else {
+	} else if err == nil || !strings.Contains(err.Error(), "timeout") {
 		s.Stats.Errors++
 		if s.Log != nil {
 			fmt.Fprintf(s.Log, "solver error: %q err=%v\n", resp, err)
@@ -311,7 +316,11 @@ func (s *Solver) Check(extra *Term, wantModel bool) (Verdict, map[string]uint64)
 	}
 	if v == Unknown {
 		s.Stats.Escalated++
+		t1 := time.Now()
 		v, model = s.fallback(q.String(), wantModel)
+		if s.Log != nil {
+			fmt.Fprintf(s.Log, "escalated after %.1fs; fallback %.1fs -> %v\n", t1.Sub(start).Seconds(), time.Since(t1).Seconds(), v)
+		}
 	} else if v == Unsat && s.CrossCheck {
 		s.Stats.CrossChecked++
 		v2, _ := s.oneShot("cvc5", []string{"cvc5", "--produce-models", fmt.Sprintf("--tlimit=%d", s.FallbackMs)}, q.String(), false)
@@ -337,6 +346,30 @@ func (s *Solver) Check(extra *Term, wantModel bool) (Verdict, map[string]uint64)
 		}
 	}
 	return v, model
+}
+
+// readWithDeadline reads one response from the primary; if it does not answer
+// in time (z3 does not always honour :timeout while bit-blasting) the process
+// is killed and the caller falls back to the one-shot portfolio.
+func (s *Solver) readWithDeadline(d time.Duration) (string, error) {
+	type rr struct {
+		s   string
+		err error
+	}
+	p := s.p
+	ch := make(chan rr, 1)
+	go func() {
+		r, e := p.readResp()
+		ch <- rr{r, e}
+	}()
+	select {
+	case r := <-ch:
+		return r.s, r.err
+	case <-time.After(d):
+		p.kill()
+		<-ch
+		return "", fmt.Errorf("primary solver timeout")
+	}
 }
 
 func (s *Solver) getModel() map[string]uint64 {
@@ -381,17 +414,39 @@ func (s *Solver) fallback(query string, wantModel bool) (Verdict, map[string]uin
 		{"z3", []string{"z3", "-in", fmt.Sprintf("-t:%d", s.FallbackMs)}},
 		{"z3-new-long", []string{"z3-new", "-in", fmt.Sprintf("-t:%d", s.FallbackMs)}},
 	}
+	type ans struct {
+		name string
+		v    Verdict
+		m    map[string]uint64
+	}
+	ch := make(chan ans, len(bes))
+	cancel := make(chan struct{})
 	for _, be := range bes {
-		v, m := s.oneShot(be.name, be.argv, query, wantModel)
-		if v != Unknown {
-			s.Stats.ByBackend[be.name]++
-			return v, m
+		be := be
+		go func() {
+			v, m := s.oneShotC(be.name, be.argv, query, wantModel, cancel)
+			ch <- ans{be.name, v, m}
+		}()
+	}
+	res := ans{v: Unknown}
+	for range bes {
+		a := <-ch
+		if a.v != Unknown && res.v == Unknown {
+			res = a
+			close(cancel)
 		}
 	}
-	return Unknown, nil
+	if res.v != Unknown {
+		s.Stats.ByBackend[res.name]++
+	}
+	return res.v, res.m
 }
 
 func (s *Solver) oneShot(name string, argv []string, query string, wantModel bool) (Verdict, map[string]uint64) {
+	return s.oneShotC(name, argv, query, wantModel, nil)
+}
+
+func (s *Solver) oneShotC(name string, argv []string, query string, wantModel bool, cancel chan struct{}) (Verdict, map[string]uint64) {
 	var sb strings.Builder
 	sb.WriteString("(set-option :produce-models true)\n")
 	if strings.HasPrefix(name, "cvc5") {
@@ -416,7 +471,9 @@ func (s *Solver) oneShot(name string, argv []string, query string, wantModel boo
 	if err != nil {
 		return Unknown, nil
 	}
-	defer os.Remove(f.Name())
+	if os.Getenv("SYMGO_DUMP") == "" {
+		defer os.Remove(f.Name())
+	}
 	f.WriteString(sb.String())
 	f.Close()
 	av := append([]string{}, argv[1:]...)
@@ -437,6 +494,12 @@ func (s *Solver) oneShot(name string, argv []string, query string, wantModel boo
 	}()
 	select {
 	case <-done:
+	case <-cancel:
+		if cmd.Process != nil {
+			cmd.Process.Kill()
+		}
+		<-done
+		return Unknown, nil
 	case <-time.After(time.Duration(s.FallbackMs+5000) * time.Millisecond):
 		if cmd.Process != nil {
 			cmd.Process.Kill()
@@ -445,15 +508,17 @@ func (s *Solver) oneShot(name string, argv []string, query string, wantModel boo
 		return Unknown, nil
 	}
 	resp := string(out)
-	if strings.Contains(resp, "(error") {
-		s.Stats.Errors++
-		if s.Log != nil {
-			fmt.Fprintf(s.Log, "%s error: %.300q\n", name, resp)
+	lines := strings.SplitN(strings.TrimSpace(resp), "\n", 2)
+	first := strings.TrimSpace(lines[0])
+	if first != "sat" && first != "unsat" {
+		if strings.Contains(resp, "(error") {
+			if s.Log != nil {
+				fmt.Fprintf(s.Log, "%s error: %.300q\n", name, resp)
+			}
 		}
 		return Unknown, nil
 	}
-	lines := strings.SplitN(strings.TrimSpace(resp), "\n", 2)
-	switch strings.TrimSpace(lines[0]) {
+	switch first {
 	case "unsat":
 		return Unsat, nil
 	case "sat":
@@ -463,7 +528,7 @@ func (s *Solver) oneShot(name string, argv []string, query string, wantModel boo
 		if len(s.pr.VarOrder) == 0 {
 			return Sat, map[string]uint64{}
 		}
-		if len(lines) < 2 {
+		if len(lines) < 2 || strings.Contains(lines[1], "(error") {
 			return Unknown, nil
 		}
 		m := parseModel(lines[1], s.pr.Vars)
